@@ -1,6 +1,6 @@
 SPECIFICATION Spec
 CONSTANTS
-  Templates = {"n", "u", "k", "t", "L1", "L2", "L3", "L4", "Lt", "N21", "N23", "N1", "D3"}
+  Templates = {"n", "u", "k", "t", "L1", "z", "b", "Lf", "L2", "L3", "L4", "Lt", "N21", "N23", "N1", "D3"}
   MaxArgs = 3
   FirstList = FALSE
 INVARIANT InvLen
